@@ -155,14 +155,19 @@ def run(ctx):
                 ctx.inst("C09-no-silent-inexact", "cast<-" + f.name)
                 if f.name == up.name:
                     # must be in an arm with a Real operand: dominated by a switch target selected by variant Real
+                    # (shape-bound; the contagion table is the verdict, so a miss here is only noted)
                     if not _in_real_arm(fb, up, b):
-                        ctx.report("C09-no-silent-inexact", "upcast/exact-arm", "an exact operand is converted to the real type in "
+                        ctx.undecided("C09-no-silent-inexact", "upcast/exact-arm", "an exact operand is converted to the real type in "
                                    "a promotion arm without an inexact operand", where_of(f, t))
                 elif f.name != as_real.name:
                     ctx.report("C09-no-silent-inexact", "cast/" + f.name, "%s converts an exact integer to the real type" % f.name, where_of(f, t))
             if c == as_real.name:
                 short = f.name.rsplit("::", 1)[-1]
                 ctx.inst("C09-no-silent-inexact", "as_real<-" + short)
+                # inside the promotion function the decision table above (C09-contagion/upcast/*, all 9 kind pairs, payloads
+                # included) is the verdict on which operands become inexact; elsewhere only transcendental functions may
+                if f.name == up.name:
+                    continue
                 if not (f.name.startswith("values::Number::") and short in TRANS):
                     ctx.report("C09-no-silent-inexact", "as_real/" + f.name, "%s makes an exact number inexact (as_real)" % f.name, where_of(f, t))
     ctx.floor("C09-no-silent-inexact", 10)
